@@ -2,10 +2,10 @@
 import itertools
 
 from mc.harness import harness, oracle
-from mc.kit import E, E2, Script, snapshot, brief
+from mc.kit import E, E2, EqE, Script, snapshot, brief
 from .common import Stack, LAYERS, ABBR
 
-SCRIPTS = {"ok": ("ok",), "Eok": ("E", "ok"), "EEok": ("E", "E", "ok"), "X": ("X",), "EEEE": ("E",) * 12}
+SCRIPTS = {"ok": ("ok",), "Eok": ("E", "ok"), "EEok": ("E", "E", "ok"), "X": ("X",), "EEEE": ("E",) * 12, "Q": ("Q",)}
 PAIRS = (("ok", "ok"), ("Eok", "ok"), ("EEok", "X"), ("X", "Eok"), ("EEEE", "ok"))
 
 
@@ -29,6 +29,9 @@ def _params(depths, bases=("sync", "tp"), pairs=PAIRS, faulty=True, threads=(1, 
                             for rec in ("none", "value"):
                                 out.append(dict(layers=layers, base=base, scripts=("X", "ok"), faulty=None, nthreads=1,
                                                 efn=(pos, rec)))
+                            # error_fn raises a NEW exception that compares equal to the one it was given
+                            out.append(dict(layers=layers, base=base, scripts=("Q", "ok"), faulty=None, nthreads=1,
+                                            efn=(pos, "raise_equal")))
                         if l == "flat_map":
                             # fn returns an already failed future while an error_fn is installed: the
                             # returned future's failure is the outcome, error_fn is for failed inputs only
@@ -48,6 +51,8 @@ def ref_eval(layers, script, faulty, sub, efn=None, flatfail=None):
         o = script[min(k, len(script) - 1)]
         if o == "ok":
             return ("ok", ("v", sub))
+        if o == "Q":
+            return ("err", "EqE", "fn%d#%d" % (sub, k))
         if o == "E":
             return ("err", "E", "fn%d#%d" % (sub, k))
         return ("err", "E2", "fn%d#%d" % (sub, k))
@@ -68,6 +73,8 @@ def ref_eval(layers, script, faulty, sub, efn=None, flatfail=None):
         if flatfail == pos and out[0] == "ok":
             return ("err", "E2", "inner@%d" % pos)
         if efn is not None and efn[0] == pos and out[0] == "err":
+            if efn[1] == "raise_equal":
+                return ("err", "EqE", "efn@%d" % pos)
             return ("ok", None if efn[1] == "none" else ("rec", pos))
         if layer in ("map", "flat_map", "poll") and out[0] == "ok":
             if faulty == pos:
@@ -89,7 +96,9 @@ def body(mc, p):
         from more_executors._impl.futures import f_return
         pos, rec = p["efn"]
         val = None if rec == "none" else ("rec", pos)
-        if layers[pos] == "map":
+        if rec == "raise_equal":
+            opts["error_fn@%d" % pos] = [("raise", EqE, "efn@%d" % pos)]
+        elif layers[pos] == "map":
             opts["error_fn@%d" % pos] = [("ret", val)]
         else:
             opts["error_fn@%d" % pos] = [("call", lambda ex, _v=val: f_return(_v))]
@@ -106,7 +115,7 @@ def body(mc, p):
         opts["error_fn@%d" % pos] = [("call", lambda ex, _pos=pos: f_return(("rec", _pos)))]
     st = Stack(mc, layers, base=p["base"], workers=2, opts=opts)
     ex = st.top
-    OUT = {"ok": None, "E": ("raise", E), "X": ("raise", E2)}
+    OUT = {"ok": None, "E": ("raise", E), "X": ("raise", E2), "Q": ("raise", EqE)}
     fns, fs = [], [None, None]
     for i, sk in enumerate(p["scripts"]):
         entries = []
@@ -138,6 +147,9 @@ def body(mc, p):
         if s[0] == "err":
             exc = f.exception(timeout=0)
             same = any(exc is r for r in fns[i].raised) or None
+            if p.get("efn") and p["efn"][1] == "raise_equal" and i == 0:
+                # must be the very object error_fn raised, not the (equal) one it was given
+                same = any(exc is r for name, sc in st.user.items() if name.startswith("error_fn") for r in sc.raised) or None
             if same is None and p["faulty"] is not None:
                 same = any(exc is r for sc in st.user.values() for r in sc.raised) or None
             if same is None and p.get("flatfail") is not None:
